@@ -429,7 +429,7 @@ def run(ctx):
     ph["prims_stream"] = round(time.time() - t0, 1)
     reader_depth_probe(ctx, dflt)
     t0 = time.time()
-    ranges_and_zero_stream(ctx, d)
+    ranges_and_zero_stream(ctx, d, dflt)
     ph["ranges_zero_stream"] = round(time.time() - t0, 1)
     if trec is not None:
         printer_trunc_stream(ctx, exe, dflt, trec, tconst["vals"])
@@ -1118,9 +1118,20 @@ def printer_trunc_stream(ctx, exe, dflt, trec, consts):
 # ------------------------------------------------------------------------------------ part 5: zero divisors, range arguments
 ARITH_OPS = ["quotient", "remainder", "modulo", "floor/", "floor-quotient", "floor-remainder", "truncate/", "truncate-quotient",
              "truncate-remainder", "/", "exact-integer-sqrt", "gcd", "lcm", "expt", "atan", "exact"]
-DIVIDENDS = ["5", "-5", "0", "5.0", "-5.0", "0.0", "(expt 2 70)", "(- (expt 2 70))", "(exact->inexact (expt 2 70))", "1/2", "2.5", "+inf.0", "+nan.0",
+DIVIDENDS = ["5", "-5", "0", "5.0", "-5.0", "0.0", "(expt 2 70)", "(- (expt 2 70))", "(exact->inexact (expt 2 70))", "1/2", "2.5", "+nan.0",
              "(- (expt 2 62))", "(- (expt 2 62) 1)", "1e300"]
 DIVISORS = ["0", "0.0", "-0.0", "(- 5 5)", "(exact->inexact 0)", "(* 0 (expt 2 70))", "0/5"]
+
+# non-finite operands and bignum^flonum: one process each with a short timeout (on the pinned code several of these never
+# return: sexp_double_to_bignum loops for ever on an infinity; expt with a bignum base and a flonum exponent)
+HANG_PROBES = [("quotient", "(quotient +inf.0 2)"), ("quotient", "(quotient 5 +inf.0)"), ("quotient", "(quotient -inf.0 0)"),
+               ("truncate-quotient", "(truncate-quotient +inf.0 0.0)"), ("remainder", "(remainder +inf.0 2)"), ("remainder", "(remainder 5 -inf.0)"),
+               ("modulo", "(modulo +inf.0 0)"), ("floor/", "(floor/ +inf.0 0)"), ("floor-quotient", "(floor-quotient 7 +inf.0)"),
+               ("truncate/", "(truncate/ +inf.0 3)"), ("lcm", "(lcm +inf.0 0)"), ("gcd", "(gcd +inf.0 4)"),
+               ("exact-integer-sqrt", "(exact-integer-sqrt +inf.0)"), ("exact", "(exact +inf.0)"), ("exact", "(exact (/ 5.0 0))"),
+               ("expt", "(expt (expt 2 70) 0.5)"), ("expt", "(expt (expt 2 70) 0.0)"), ("expt", "(expt +inf.0 0)"), ("expt", "(expt 2 +inf.0)"),
+               ("number->string", "(number->string +inf.0 2)"), ("round", "(exact (round +inf.0))"), ("rationalize", "(rationalize +inf.0 1/3)"),
+               ("exact-integer?", "(exact-integer? +inf.0)"), ("numerator", "(numerator +inf.0)"), ("floor", "(exact (floor +nan.0))")]
 
 RANGE_SUM = r"""
 (define (verif-allowed? x) (if (char? x) (memv x '(#\\a #\\b #\\c #\\z)) (memv x '(1 2 3 9 97 98 99 122))))
@@ -1160,7 +1171,7 @@ RANGES = [(), (0, 3), (1, 2), (3, 3), (0, 0), (1,), (3,), (0,), (2, 3),
           ("1.0", 2), ("'a",), ("(expt 2 70)",), (0, "(expt 2 70)"), (0, "2.5"), (FIXMIN, 3), (100000, 100001), (5, 100000)]
 
 
-def ranges_and_zero_stream(ctx, d):
+def ranges_and_zero_stream(ctx, d, dflt):
     """K-outer under ASan: (a) every division-like procedure with every kind of zero divisor and every kind of dividend;
     (b) every R7RS procedure with optional start/end arguments, with valid, out-of-range, reversed, negative, huge and
     ill-typed ranges.  Oracle (a): value or error object.  Oracle (b): a valid range (0 <= start <= end <= 3) must give a
@@ -1178,6 +1189,8 @@ def ranges_and_zero_stream(ctx, d):
                     if op == "exact":
                         e = "(begin (exact (/ %s %s)) 1)" % (a, b)
                 else:
+                    if op == "expt" and "expt 2 70" in a:
+                        continue        # bignum base with a flonum exponent: see HANG_PROBES
                     e = "(begin (%s %s %s) 1)" % (op, a, b)
                 exprs.append(e)
                 meta.append(("arith", op, None, None))
@@ -1192,7 +1205,31 @@ def ranges_and_zero_stream(ctx, d):
             valid = ints and 0 <= st <= en <= 3
             exprs.append(e)
             meta.append(("range", name, valid, ((en - st) if rl in ("range", "range2") else rl) if valid else None))
-    io = run_cases(d, exprs, prelude_extra=RANGE_SUM, timeout=600, extra_env=ASAN_ENV, max_crashes=8)
+    from concurrent.futures import ThreadPoolExecutor
+
+    def probe(kp):
+        k, (op, e) = kp
+        path = os.path.join(B.SCRATCH, "c01_hang_%d_%d.scm" % (os.getpid(), k))
+        open(path, "w").write("(import (scheme base) (scheme write) (scheme inexact)) (write (guard (e (#t 'error-object)) (begin %s 'value)))" % e)
+        try:
+            r = B.run_chibi(dflt, [path], timeout=20)
+            res = "rc=%s %s" % (r.returncode, (r.stdout + r.stderr)[-100:])
+            good = r.returncode in (0, 70)
+        except subprocess.TimeoutExpired:
+            res, good = "no answer after 20 s (killed)", False
+        os.unlink(path)
+        return op, e, good, res
+    with ThreadPoolExecutor(4) as ex:
+        for op, e, good, res in ex.map(probe, enumerate(HANG_PROBES)):
+            ctx.count(1, key=("hang-probe", e), nontrivial=True)
+            if not good:
+                kind = "bignum-base-flonum-exponent" if op == "expt" and "(expt 2 70)" in e else "nonfinite-operand"
+                ctx.violation("arith:%s:%s:%s" % (op, kind, "hang" if "no answer" in res else "crash"), input=e,
+                              expected="a value or an error object", observed=res,
+                              replay="LD_LIBRARY_PATH=%s CHIBI_MODULE_PATH=%s/lib CHIBI_IGNORE_SYSTEM_PATH=1 timeout 60 %s/chibi-scheme -e \"%s\"" % (dflt, dflt, dflt, e))
+    na = sum(1 for m in meta if m[0] == "arith")       # the two parts get a crash budget each
+    io = (run_cases(d, exprs[:na], prelude_extra=RANGE_SUM, timeout=120, extra_env=ASAN_ENV, max_crashes=6, chunk=400)
+          + run_cases(d, exprs[na:], prelude_extra=RANGE_SUM, timeout=120, extra_env=ASAN_ENV, max_crashes=6, chunk=400))
     soft = {}
     for e, (kind, name, valid, ln), r in zip(exprs, meta, io):
         ctx.count(1, key=("rz", e), nontrivial=True)
